@@ -520,7 +520,7 @@ POOL = {"height": [10.0, 20.0, 15.0, 12.0, 18.0, 11.0, 13.0], "mesh": [1, 2, 3, 
 # one's list is compared with the number of blocks.  With the flag set, a wrong length of a by-component list that
 # is hidden this way (a later component gives the same modifier with the right length) is noted, not required to be
 # refused; every other wrong length is.
-KNOWN_DEFECT_by_component_list_lengths_are_checked_per_modifier_name = False
+KNOWN_DEFECT_by_component_list_lengths_are_checked_per_modifier_name = False  # repaired in /repo (fix: 1c87942)
 
 
 def lists_text(nBlocks, lengths):
